@@ -434,3 +434,51 @@ fn c14_master_receive_3slots_q() {
     m.state = any_master_state(3);
     check_master_receive(&mut m, &fdl);
 }
+
+/// Concrete native witness for F11: two peripherals whose Set_Prm is answered by a data telegram
+/// instead of a short confirmation (an admissible but rejected reply: the retry counter keeps
+/// counting while the cycle moves on) exceed their retry limit in the same master turn.
+#[cfg(test)]
+#[test]
+fn witness_f11_two_offline_events() {
+    let fdl = crate::fdl::FdlActiveStation::new(Default::default());
+    let mut pi = [[0u8; 1]; 4];
+    let [a, b, c, d] = &mut pi;
+    let prm = [0u8; 1];
+    let opts = || crate::dp::PeripheralOptions { user_parameters: Some(&prm[..]), config: Some(&prm[..]), ..Default::default() };
+    let mut storage = [
+        mk_slot(Some(crate::dp::Peripheral::new(10, opts(), &mut a[..], &mut b[..]))),
+        mk_slot(Some(crate::dp::Peripheral::new(11, opts(), &mut c[..], &mut d[..]))),
+    ];
+    let mut m = DpMaster::new(&mut storage[..]);
+    m.enter_operate();
+    let mut buf = [0u8; 32];
+    let now = crate::time::Instant::ZERO;
+    let mut seen_diag = [false; 2];
+    for _turn in 0..40 {
+        // high-priority-only turns: global control never interferes
+        let r = m.transmit_telegram(now, &fdl, TelegramTx::new(&mut buf), HighPrioOnly::Yes);
+        if let Some(addr) = r.and_then(|r| r.expects_reply()) {
+            let k = usize::from(addr - 10);
+            if !seen_diag[k] {
+                // the first probe is answered properly: the peripheral comes online
+                seen_diag[k] = true;
+                let pdu = [0x02, 0x05, 0x00, 0xff, 0x00, 0x00];
+                let t = crate::fdl::Telegram::Data(crate::fdl::DataTelegram {
+                    h: DataTelegramHeader { da: 1, sa: addr, dsap: Some(62), ssap: Some(60), fc: FunctionCode::Response { state: crate::fdl::ResponseState::Slave, status: crate::fdl::ResponseStatus::DataLow } },
+                    pdu: &pdu,
+                });
+                m.receive_reply(now, &fdl, addr, t);
+            } else {
+                // every Set_Prm is answered by a data telegram instead of SC
+                let pdu = [0u8; 1];
+                let t = crate::fdl::Telegram::Data(crate::fdl::DataTelegram {
+                    h: DataTelegramHeader { da: 1, sa: addr, dsap: None, ssap: None, fc: FunctionCode::Response { state: crate::fdl::ResponseState::Slave, status: crate::fdl::ResponseStatus::DataLow } },
+                    pdu: &pdu,
+                });
+                m.receive_reply(now, &fdl, addr, t);
+            }
+        }
+        let _ = m.take_last_events();
+    }
+}
